@@ -33,7 +33,7 @@ CHECKS = {
         category="exploration",
         technique="runtime monitoring: reference-model oracle (BTreeMap ordered by the key type) over generated operation sequences and threshold sweeps, with an independent file decoder at every sync",
         text="Random sequences of every table operation named in the property over 10 key types x 2 value types, 1-8 transactions with aborts, non-durable commits and reopen; every return value and a full forward+backward scan after every transaction are compared with a sorted map; the same sequence is replayed under several page/region/cache configurations; threshold sweeps walk leaf sizes across page/3, page/2, page, 2*page byte by byte. Held-on-what-was-generated, not universal.",
-        note="Trusted: the order-preserving model encodings of harness/src/typed.rs (cross-checked by C15), std BTreeMap. Values stop at 5 pages.",
+        note="Trusted: the order-preserving model encodings of harness/src/typed.rs (cross-checked by C15), std BTreeMap. Values stop at about 1.5 MB (400 pages at the small page sizes).",
         design="5/C04",
     ),
     "C09": dict(
@@ -75,8 +75,8 @@ CHECKS = {
     "C20": dict(
         category="exploration",
         technique="runtime monitoring: online contract assertions inside the storage backend given to redb (bounds, copy-on-write set decoded independently at every sync, close-once, no call after close, read-only never mutates) over failing opens, injected failures, life-cycle orders and random histories",
-        text="The monitoring backend asserts the contract at every call. Scenarios: 14 kinds of damaged/unclean images opened (and used when the open succeeds), open/use/drop with the k-th backend call failing, database dropped while a writer is live on another thread, writer and readers outliving the database, reopen cycles, check_integrity/compact, read-only databases over clean and unclean files (through the cfg(redb_verif) constructor), random histories. Scenarios and fault indices are sampled. A third of the life-cycle scenarios make the backend's own close() report an error.",
-        note="Trusted: the monitor serializes calls with its own mutex, so 'after close' means 'acquired the monitor after close() did'; the copy-on-write set comes from harness/src/fmt.rs. The real FileBackend is not traced in the quick tier.",
+        text="The monitoring backend asserts the contract at every call. Scenarios: 14 kinds of damaged/unclean images opened (and used when the open succeeds), open/use/drop with the k-th backend call failing, database dropped while a writer is live on another thread, writer and readers outliving the database, reopen cycles, check_integrity/compact, read-only databases over clean and unclean files (through the cfg(redb_verif) constructor), random histories. Scenarios and fault indices are sampled. A third of the life-cycle scenarios make the backend's own close() report an error. The monitor also counts its own reads in flight (entry to return) and reports a close() that overlaps one; a scenario with read latency, a reader thread, a failing commit and a drop exercises that.",
+        note="Trusted: the monitor serializes calls with its own mutex, so 'after close' means 'acquired the monitor after close() did'; 'overlaps close()' means the read entered the monitor before close() took the monitor lock and had not left it; the copy-on-write set comes from harness/src/fmt.rs. The real FileBackend is not traced in the quick tier.",
         design="5/C20",
     ),
 
@@ -118,7 +118,7 @@ CHECKS = {
     "C13": dict(
         category="exploration",
         technique="runtime monitoring: reference-model oracle, file-length monitor and transaction-id counter around compact(), refusal oracle, ownership accountant, crash-image oracle over the compaction's storage operations",
-        text="Fragmented multi-region databases (pending frees, pending non-durable commits, multimap subtrees, readers, savepoints): compact() with a reader or savepoint alive must return the matching error and change nothing; otherwise contents unchanged, file length at return not larger, transactions consumed <= 4*allocated+16, accountant balanced; for part of the cases each storage operation inside the compaction is a crash point recovering to the unchanged contents. One known finding (growth of an already packed database) is listed in known_findings.json.",
+        text="Fragmented multi-region databases (pending frees, pending non-durable commits, multimap subtrees, readers, savepoints): compact() with a reader or savepoint alive must return the matching error and change nothing; the same when the pin is created by a write transaction that was already live when compact() was called on another thread (late-pin scenarios); otherwise contents unchanged, file length at return not larger, transactions consumed <= 4*allocated+16, accountant balanced; for part of the cases each storage operation inside the compaction is a crash point recovering to the unchanged contents. One known finding (growth of an already packed database) is listed in known_findings.json.",
         note="Trusted: the reference model; file length is measured at the backend when compact() returns; the pass bound is a generous logical bound.",
         design="5/C13",
     ),
